@@ -85,4 +85,77 @@ theorem safePublishDir_sound (dest : Path) (old new : Obs) (t : List Call) :
       rw [run_cons]
       exact ih (step s0 c) h.2 p' q hp'
 
+/-- The canonical sequence of renameio (`TempFile` → `Chmod` → any number of `Write`s → `Sync` → `Close` →
+    `Rename`) is accepted by the checker for every chunking of every content, every mode, every descriptor
+    number, whether the destination is absent or holds any (durable) previous content. Together with
+    `safePublish_sound`: it publishes atomically at every crash point under every legal power-loss outcome. -/
+theorem publish_sequence_safe (old : Option (Content × Nat)) (fd perm : Nat) (chunks : List Seg) :
+    safePublish (baseFS old) destF (baseOld old) (some (.file (written chunks), []))
+      (publishSeq tmpF destF fd perm chunks) = true := by
+  have h1 := mid_start old fd perm (some (.file (written chunks), []))
+  have h2 := mid_writes old fd perm (some (.file (written chunks), [])) chunks [] false (Or.inr rfl)
+  have h3 := mid_finish old fd perm (written chunks)
+  unfold safePublish publishSeq
+  have := chkRun_append destF (baseOld old) (some (Node.file (written chunks), []))
+    (chkInit (baseFS old) destF (baseOld old) (some (Node.file (written chunks), [])))
+    ([Call.openC tmpF true true false 0o600 (some fd), Call.fchmod fd perm] ++ chunks.map (Call.write fd))
+    [Call.fsync fd, Call.close fd, Call.rename tmpF destF]
+  unfold chkRun at this h1 h2 h3
+  rw [this, List.foldl_append, h1, h2]
+  exact h3
+
+/-- Why the `Sync()` cannot be skipped (the comment in CloseAtomicallyReplace, as a theorem): the same sequence
+    without the fsync is rejected by the checker, and the model exhibits the legal power-loss outcome in which
+    the destination is a ZERO-LENGTH file — which is not the new content. -/
+theorem fsync_before_rename_needed (old : Option (Content × Nat)) (fd perm : Nat) (chunks : List Seg)
+    (hne : written chunks ≠ []) :
+    safePublish (baseFS old) destF (baseOld old) (some (.file (written chunks), []))
+      (publishSeqNoSync tmpF destF fd perm chunks) = false ∧
+    (∃ c : Crash (baseFS old) (publishSeqNoSync tmpF destF fd perm chunks), c.view destF = some (.file [], [])) ∧
+    (some (Node.file [], []) : Obs) ≠ some (.file (written chunks), []) := by
+  have h1 := mid_start old fd perm (some (.file (written chunks), []))
+  have h2 := mid_writes old fd perm (some (.file (written chunks), [])) chunks [] false (Or.inr rfl)
+  have happ := chkRun_append destF (baseOld old) (some (Node.file (written chunks), []))
+    (chkInit (baseFS old) destF (baseOld old) (some (Node.file (written chunks), [])))
+    ([Call.openC tmpF true true false 0o600 (some fd), Call.fchmod fd perm] ++ chunks.map (Call.write fd))
+    [Call.close fd, Call.rename tmpF destF]
+  have hmid : chkRun destF (baseOld old) (some (Node.file (written chunks), []))
+      (chkInit (baseFS old) destF (baseOld old) (some (Node.file (written chunks), [])))
+      ([Call.openC tmpF true true false 0o600 (some fd), Call.fchmod fd perm] ++ chunks.map (Call.write fd)) =
+      midChk old fd perm (written chunks) false := by
+    rw [chkRun_append, h1, h2]; rfl
+  refine ⟨?_, ?_, ?_⟩
+  · have h3 := mid_finish_nosync old fd perm (written chunks)
+    unfold safePublish publishSeqNoSync
+    unfold chkRun at happ hmid h3
+    rw [happ, hmid]; exact h3
+  · -- the final volatile state, explicitly
+    have hrun : run (baseFS old) (publishSeqNoSync tmpF destF fd perm chunks) = endNoSyncFS old perm (written chunks) := by
+      have hs := chkRun_s destF (baseOld old) (some (Node.file (written chunks), []))
+        ([Call.openC tmpF true true false 0o600 (some fd), Call.fchmod fd perm] ++ chunks.map (Call.write fd))
+        (chkInit (baseFS old) destF (baseOld old) (some (Node.file (written chunks), [])))
+      rw [hmid] at hs
+      have : publishSeqNoSync tmpF destF fd perm chunks =
+          ([Call.openC tmpF true true false 0o600 (some fd), Call.fchmod fd perm] ++ chunks.map (Call.write fd)) ++
+          [Call.close fd, Call.rename tmpF destF] := rfl
+      rw [this, run_append]
+      have hs' : run (baseFS old) ([Call.openC tmpF true true false 0o600 (some fd), Call.fchmod fd perm] ++
+          chunks.map (Call.write fd)) = midFS old fd perm (written chunks) false := by
+        exact hs.symm
+      rw [hs']; exact run_mid_nosync old fd perm (written chunks)
+    refine ⟨{ pre := publishSeqNoSync tmpF destF fd perm chunks, post := [], split := by simp,
+              data := fun i => match inodeAt (run (baseFS old) (publishSeqNoSync tmpF destF fd perm chunks)) i with
+                | some n => if n.clean then n.data else []
+                | none => [],
+              legal := by intro i n h hc; simp [h, hc] }, ?_⟩
+    simp only [Crash.view, hrun]
+    cases old with
+    | none => simp [view, endNoSyncFS, lookup, List.lookup, destF, inodeAt, nodeOf, dirInode]
+    | some cm =>
+      obtain ⟨c, m⟩ := cm
+      simp [view, endNoSyncFS, lookup, List.lookup, destF, inodeAt, nodeOf, dirInode]
+  · intro h
+    simp only [Option.some.injEq, Prod.mk.injEq, Node.file.injEq, and_true] at h
+    exact hne h.symm
+
 end PB.C17
